@@ -138,6 +138,8 @@ def cases(unit, tier):
         yield ["custom", 0]
         yield ["custom", 1]
         yield ["custom", 2]
+        for k in range(6):
+            yield ["ioerror", k]
     else:
         yield ["real", 0]
 
@@ -298,6 +300,50 @@ def run_case(case):
         v2, _ = check_one(msg, dict(BASE, v=exp), caller_default)
         viol += [("caller-default:" + s, d) for s, d in v2]
         return Result(outcome=text, violations=[(s, dict(d, value=repr(v)[:120])) for s, d in viol[:3]])
+    if case[0] == "ioerror":
+        # the file's flush() (k < 3) or write() (k >= 3) fails once with a transient error: whatever the
+        # destination does about it, no message may end up in the file twice or torn
+        exc = [BlockingIOError(11, "again"), InterruptedError(4, "interrupted"), OSError(28, "no space")][case[1] % 3]
+        which = "flush" if case[1] < 3 else "write"
+        viol = []
+        for Rec, mode in ((RecBinary, "binary"), (RecText, "text")):
+            f = Rec()
+            state = {"armed": True}
+            real = getattr(f, which)
+
+            def failing(*a, **k):
+                if which == "flush":
+                    real(*a, **k)
+                if state["armed"] and (which == "flush" or a[0]):
+                    state["armed"] = False
+                    raise exc
+                return real(*a, **k) if which == "write" else None
+
+            setattr(f, which, failing)
+            dest = FileDestination(file=f)
+            msgs = [dict(BASE, n=i, v="x%d" % i) for i in range(3)]
+            raised = 0
+            for m in msgs:
+                try:
+                    dest(m)
+                except OSError:
+                    raised += 1
+            data = [c[1] for c in f.calls if c[0] == "write" and c[1]]
+            text = (b"" if mode == "binary" else "").join(data)
+            if mode == "binary":
+                text = text.decode("utf-8")
+            lines = text.split("\n")
+            ns = []
+            ok = lines[-1] == ""
+            for l in lines[:-1]:
+                try:
+                    ns.append(json.loads(l)["n"])
+                except Exception:
+                    ok = False
+            want = [0, 1, 2] if which == "flush" else [1, 2]
+            if not ok or ns != want:
+                viol.append(("transient-%s-error:%s-file-lines" % (which, mode), {"error": repr(exc), "lines": ns, "want": want, "raised": raised, "text": text[:200]}))
+        return Result(outcome=["ioerror", case[1], len(viol)], violations=viol[:2])
     if case[0] == "custom":
         if case[1] == 2:
             msg = dict(BASE, s={3, 1}, p=Path("/x"), c=complex(1, 2), d=datetime.date(2020, 1, 2))
@@ -323,7 +369,7 @@ def run_case(case):
                     viol.append(("partial-write-before-raising", {"calls": repr(f.calls)[:200]}))
             text = None
         return Result(outcome=text, violations=viol[:3])
-    # real files: BytesIO, StringIO, disk files in both modes, same-class files of both modes, through to_file
+    # real files: BytesIO, StringIO, disk files in both modes, same-class files of both modes, through to_file; files whose write()/flush() fails once with a transient OSError
     viol = []
     msgs = [dict(BASE, v=value(i), n=i) for i in range(0, len(values()), 97)]
     tmp = tempfile.mkdtemp(prefix="vk_c10_", dir="/var/tmp")
